@@ -48,10 +48,11 @@ Lemma find_phases_app (A B : list (ctfline (T:=T))) (n : Z) :
   Forall (fun l => starts_phases l = false) A -> find_phases (A ++ CLPhases n :: B) = Some (n, B).
 Proof. induction 1 as [|l A Hl _ IH]; simpl; [reflexivity|]. rewrite Hl. exact IH. Qed.
 
-Definition laue_pg (p : cphase (T:=T)) : option string := py_index ctf_laue_ids (cp_laue p - 1).
+(* the point group entry of a phase line (None = the line cannot be read) *)
+Definition laue_pg (p : cphase (T:=T)) : option (option string) := ctf_point_group (cp_laue p) (cp_sg p).
 Definition sg_opt (p : cphase (T:=T)) : option Z := if (cp_sg p =? 0)%Z then None else Some (cp_sg p).
 
-Lemma read_phases_render v (ps : list (cphase (T:=T))) (pgs : list string) (tail : list ctfline) acc :
+Lemma read_phases_render v (ps : list (cphase (T:=T))) (pgs : list (option string)) (tail : list ctfline) acc :
   map laue_pg ps = map Some pgs ->
   read_phases (List.length ps) (map (render_cphase v) ps ++ tail) acc =
   Ok (mkCH (ch_names acc ++ map cp_name ps) (ch_pgs acc ++ pgs) (ch_sgs acc ++ map sg_opt ps)
@@ -66,7 +67,7 @@ Qed.
 Definition wf_misc (f : ctffile (T:=T)) : Prop :=
   Forall (fun m => starts_phases (CLText (T:=T) m) = false) (cf_misc f).
 
-Lemma ctf_phases_render f (pgs : list string) :
+Lemma ctf_phases_render f (pgs : list (option string)) :
   wf_misc f -> map laue_pg (cf_phases f) = map Some pgs ->
   ctf_phases (chdr_body f) =
   Ok (mkCH (map cp_name (cf_phases f)) pgs (map sg_opt (cf_phases f)) (map cp_lat (cf_phases f))).
@@ -162,7 +163,7 @@ Qed.
 Definition cpid (p : cpoint (T:=T)) : Z := if (c_pid p =? 0)%Z then (-1)%Z else c_pid p.
 Definition cv (g : cpoint (T:=T) -> T) (pts : list (cpoint (T:=T))) : nat * list T := (1%nat, map g pts).
 
-Definition ctf_phaselist (f : ctffile (T:=T)) (pgs : list string) : result (list (Z * phase (T:=T))) :=
+Definition ctf_phaselist (f : ctffile (T:=T)) (pgs : list (option string)) : result (list (Z * phase (T:=T))) :=
   phaselist Op (map (fun k => Z.of_nat (S k)) (seq 0 (List.length (cf_phases f))))
             (map cp_name (cf_phases f)) (map sg_opt (cf_phases f)) pgs (map cp_lat (cf_phases f)).
 
@@ -180,11 +181,11 @@ Ltac cfinish :=
 
 (* Oxford / Bruker / MTEX (any detected vendor other than emsoft and astar):
    degrees, phase 0 = not indexed, um, standard names, extra columns ignored *)
-Theorem parse_ctf_plain (f : ctffile (T:=T)) (p0 : cpoint (T:=T)) pts (pgs : list string) (stops : list Z) :
+Theorem parse_ctf_plain (f : ctffile (T:=T)) (p0 : cpoint (T:=T)) pts (pgs : list (option string)) :
   wf_misc f -> map laue_pg (cf_phases f) = map Some pgs -> cf_pts f = p0 :: pts ->
   String.eqb (ctf_vendor (chdr_body f)) "emsoft" = false ->
   String.eqb (ctf_vendor (chdr_body f)) "astar" = false ->
-  parse_ctf Op (render_chdr f) (map (render_cpt (T:=T)) (cf_pts f)) stops =
+  parse_ctf Op (render_chdr f) (map (render_cpt (T:=T)) (cf_pts f)) =
   bind (ctf_phaselist f pgs) (fun pl =>
     Ok (crystal_map Op 1 (map (eu_deg2rad Op) (map c_eu (cf_pts f))) (map c_x (cf_pts f)) (map c_y (cf_pts f))
           (map cpid (cf_pts f))
@@ -200,10 +201,10 @@ Proof.
 Qed.
 
 (* EMsoft: MAD, BC, BS are renamed DP, OSM, IQ *)
-Theorem parse_ctf_emsoft (f : ctffile (T:=T)) (p0 : cpoint (T:=T)) pts (pgs : list string) (stops : list Z) :
+Theorem parse_ctf_emsoft (f : ctffile (T:=T)) (p0 : cpoint (T:=T)) pts (pgs : list (option string)) :
   wf_misc f -> map laue_pg (cf_phases f) = map Some pgs -> cf_pts f = p0 :: pts ->
   ctf_vendor (chdr_body f) = "emsoft" ->
-  parse_ctf Op (render_chdr f) (map (render_cpt (T:=T)) (cf_pts f)) stops =
+  parse_ctf Op (render_chdr f) (map (render_cpt (T:=T)) (cf_pts f)) =
   bind (ctf_phaselist f pgs) (fun pl =>
     Ok (crystal_map Op 1 (map (eu_deg2rad Op) (map c_eu (cf_pts f))) (map c_x (cf_pts f)) (map c_y (cf_pts f))
           (map cpid (cf_pts f))
@@ -216,6 +217,69 @@ Proof.
   rewrite He. replace (String.eqb "emsoft" "emsoft") with true by reflexivity.
   rewrite (assign_ctf_emsoft _ Hn). unfold bind at 1. cbv iota beta.
   replace (String.eqb "emsoft" "astar") with false by reflexivity. unfold bind at 1.
+  cbn [ch_names ch_pgs ch_sgs ch_lats]. rewrite map_length.
+  cfinish.
+Qed.
+
+(* ---------------------------------------------------------------- ASTAR *)
+Definition num_step (key : string) (acc : option (num (T:=T))) (l : ctfline (T:=T)) : option (num (T:=T)) :=
+  match l with CLNum k v => if String.eqb k key then Some v else acc | _ => acc end.
+Definition not_num (l : ctfline (T:=T)) : Prop := match l with CLNum _ _ => False | _ => True end.
+
+Lemma fold_not_num key (B : list (ctfline (T:=T))) acc :
+  Forall not_num B -> fold_left (num_step key) B acc = acc.
+Proof. intros H. revert acc. induction H as [|l B Hl _ IH]; intros acc; simpl; [reflexivity|]. rewrite IH. destruct l; simpl in *; tauto. Qed.
+
+Lemma last_num_body key (f : ctffile (T:=T)) : last_num key (chdr_body f) = last_num key (chdr_head f).
+Proof.
+  unfold last_num, chdr_body. change (fun (acc : option (num (T:=T))) (l : ctfline (T:=T)) => match l with
+    | CLNum k v => if String.eqb k key then Some v else acc | _ => acc end) with (num_step key).
+  rewrite fold_left_app. apply fold_not_num.
+  apply Forall_app; split; [|apply Forall_app; split].
+  - apply Forall_forall. intros l Hl. apply in_map_iff in Hl. destruct Hl as [m [<- _]]. exact I.
+  - constructor; [exact I|constructor].
+  - apply Forall_forall. intros l Hl. apply in_map_iff in Hl. destruct Hl as [m [<- _]]. exact I.
+Qed.
+
+(* the header grid of a rendered file: XCells/YCells/XStep/YStep are read back *)
+Lemma fix_astar_render (f : ctffile (T:=T)) :
+  fix_astar Op (chdr_body f) = Ok (grid_coords Op (cf_nrows f) (cf_ncols f) (cf_dx f) (cf_dy f)).
+Proof.
+  unfold fix_astar. rewrite !last_num_body.
+  replace (last_num "XCells" (chdr_head f)) with (Some (NI (T:=T) (Z.of_nat (cf_ncols f))))
+    by (unfold chdr_head, last_num; destruct (cf_vendor f); reflexivity).
+  replace (last_num "YCells" (chdr_head f)) with (Some (NI (T:=T) (Z.of_nat (cf_nrows f))))
+    by (unfold chdr_head, last_num; destruct (cf_vendor f); reflexivity).
+  replace (last_num "XStep" (chdr_head f)) with (Some (NF (cf_dx f)))
+    by (unfold chdr_head, last_num; destruct (cf_vendor f); reflexivity).
+  replace (last_num "YStep" (chdr_head f)) with (Some (NF (cf_dy f)))
+    by (unfold chdr_head, last_num; destruct (cf_vendor f); reflexivity).
+  cbn [nint nval]. rewrite !Nat2Z.id. reflexivity.
+Qed.
+
+(* ASTAR: as Oxford, but the coordinates are those of the header grid
+   (row-major c * XStep, r * YStep for YCells x XCells points), for ANY number
+   of rows and columns (single rows / columns included) and whatever the
+   coordinate columns contain *)
+Theorem parse_ctf_astar (f : ctffile (T:=T)) (p0 : cpoint (T:=T)) pts (pgs : list (option string)) :
+  wf_misc f -> map laue_pg (cf_phases f) = map Some pgs -> cf_pts f = p0 :: pts ->
+  ctf_vendor (chdr_body f) = "astar" ->
+  parse_ctf Op (render_chdr f) (map (render_cpt (T:=T)) (cf_pts f)) =
+  bind (ctf_phaselist f pgs) (fun pl =>
+    Ok (crystal_map Op 1 (map (eu_deg2rad Op) (map c_eu (cf_pts f)))
+          (fst (grid_coords Op (cf_nrows f) (cf_ncols f) (cf_dx f) (cf_dy f)))
+          (snd (grid_coords Op (cf_nrows f) (cf_ncols f) (cf_dx f) (cf_dy f)))
+          (map cpid (cf_pts f))
+          [("bands", cv c_bands (cf_pts f)); ("error", cv c_err (cf_pts f)); ("MAD", cv c_mad (cf_pts f));
+           ("BC", cv c_bc (cf_pts f)); ("BS", cv c_bs (cf_pts f))] "um" pl false)).
+Proof.
+  intros Hm Hp Hpts Ha. unfold parse_ctf, ctf_phaselist. rewrite header_of_render.
+  rewrite (ctf_phases_render f pgs Hm Hp). unfold bind at 1.
+  assert (Hn : (11 <= ncols_of (map (render_cpt (T:=T)) (cf_pts f)))%nat) by (rewrite Hpts; apply cncols).
+  rewrite Ha. replace (String.eqb "astar" "emsoft") with false by reflexivity.
+  rewrite (assign_ctf_plain _ Hn). unfold bind at 1. cbv iota beta.
+  replace (String.eqb "astar" "astar") with true by reflexivity.
+  rewrite fix_astar_render. unfold bind at 1.
   cbn [ch_names ch_pgs ch_sgs ch_lats]. rewrite map_length.
   cfinish.
 Qed.
